@@ -283,6 +283,13 @@ impl ContiguousIntervalPair {
 
         let query_start = self.liftover(reference.start()).unwrap();
 
+        // An empty intersection has no last base to lift over: it maps to the
+        // empty interval at the image of its only position.
+        if reference.count_entities() == 0 {
+            let query = Interval::try_new(query_start.clone(), query_start).unwrap();
+            return ContiguousIntervalPair::try_new(reference, query);
+        }
+
         // Note that the position is moved backward with a bounds check because
         // we always expect the _end_ of an interval minus one to fall within
         // the interval again. I don't feel that the bounds check is strictly
